@@ -62,7 +62,7 @@ def bounds(tier):
     return {'stream_length': 'every length 0..%d, every byte symbolic' % lmax,
             'segmentations': 'reference reader: one chunk; second reader: all 1-byte chunks, and every placement of up to %d cut points' % maxmode + ('' if tier == 'quick' else ' (length 8: 1-byte chunks only; length 7: at most one cut)'),
             'structured_streams': 'two frames (v1 / v2 / signed v2, payload 0..3, all contents symbolic) with 0..2 non-marker noise bytes before, between and after; second reader fed 1-byte chunks or with ' + ('one' if tier == 'quick' else 'one or two') + ' arbitrary cut point(s); ' + ('6 layouts' if tier == 'quick' else 'all kind pairs x 4 length pairs x 6 noise layouts'),
-            'truncated_frames': 'a valid v1 / v2 / signed v2 frame cut at every offset, transport ending with EOF or another error, whole or in 1-byte reads: no frame, parse errors only, then the transport error',
+            'truncated_frames': 'a valid v1 / v2 / signed v2 frame cut at every offset, transport ending with EOF or another error, whole or in 1-byte reads: the first call returns no frame (what follows on the leftover bytes is harness A)',
             'transport_end': 'io.EOF, and a non-EOF error after the last byte (= an error injected at every offset, since every length is explored)',
             'dialect_and_key': 'none (gates are C02/C06)'}
 
